@@ -162,8 +162,8 @@ func firstLine(s string) string {
 	if i := strings.IndexByte(s, '\n'); i >= 0 {
 		s = s[:i]
 	}
-	if len(s) > 300 {
-		s = s[:300]
+	if len(s) > 2000 { // longer than any generated template name plus the message around it
+		s = s[:2000]
 	}
 	return s
 }
@@ -190,8 +190,8 @@ func (e *Eng) Render(ctx context.Context, name string, data interface{}) (res Re
 	rd, err := e.E.Render(ctx, name, data)
 	if err != nil {
 		msg := firstLine(err.Error())
-		if strings.HasPrefix(msg, "Template ") && strings.HasSuffix(msg, " not found!") {
-			return Result{Class: "notfound", Msg: msg}
+		if full := err.Error(); strings.HasPrefix(full, "Template ") && strings.HasSuffix(full, " not found!") {
+			return Result{Class: "notfound", Msg: msg} // classified on the whole message: firstLine cuts long names
 		}
 		return Result{Class: "error", Msg: msg}
 	}
